@@ -39,7 +39,8 @@ def gen_cases(rng, n, max_depth, exhaustive_children=False):
             # additive and multiplicative ones: where it is listed changes nothing
             for nd, _ in H._nodes(r):
                 rep = nd.get("repetition")
-                if rep and rep["sequence"]["kind"] == "constant" and nd["children"] and not any(x["name"] == "anc" for x in nd["children"][0]["resources"]):
+                if (rep and rep["sequence"]["kind"] == "constant" and nd["children"] and not nd["children"][0].get("repetition")
+                        and not any(x["name"] == "anc" for x in nd["children"][0]["resources"])):     # (a repeated routine declares no resources of its own)
                     kid = nd["children"][0]
                     kid["resources"].insert(rng.randrange(len(kid["resources"]) + 1), {"name": "anc", "type": "qubits", "value": E.num(rng.randint(1, 4))})
         if exhaustive_children and 2 <= len(r["children"]) <= 4:
